@@ -145,7 +145,7 @@ func pipeScenario(r *rand.Rand, kind int) (desc string, steps []readStep) {
 		return fmt.Sprintf("valid n=%d", n), chopped(lines(n, func(int) bool { return false }), 16, r)
 	case 2: // early lexical failure, much input left
 		n := 30 + r.Intn(40)
-		src := lines(3, func(int) bool { return false }) + "$\n" + lines(n, func(int) bool { return false })
+		src := lines(3, func(int) bool { return false }) + pickS(r, "$\n", "def b { f = 1\n $\n", "def b { def c {\n g = \"x\n") + lines(n, func(int) bool { return false })
 		return "early-lexfail", chopped(src, 12, r)
 	case 3: // late syntax error, zero-byte reads, data with EOF
 		src := lines(12, func(i int) bool { return i == 10 })
